@@ -14,7 +14,7 @@ case "$PATCH" in
   *) (cd "$W/repo" && git apply --whitespace=nowarn "$PATCH") || { echo "$NAME: PATCH-FAILED"; exit 3; } ;;
 esac
 for ID in "$@"; do
-  out="$(VERIF_REPO="$W/repo" VERIF_OUT="$W/out" "$VERIF/check.sh" "$ID" "${TIER:-quick}" 2>&1)"
+  out="$(VERIF_REPO="$W/repo" VERIF_OUT="$W/out" "$VERIF/check.sh" "$ID" "${TIER:-quick}" ${TRY_ARGS:-} 2>&1)"
   rc=$?
   nv=$(printf '%s\n' "$out" | grep -c '^VIOLATION')
   first=$(printf '%s\n' "$out" | grep -A1 '^VIOLATION' | grep 'key=' | head -1 | cut -c1-260)
